@@ -831,6 +831,41 @@ func (r *rig) stepPush(i int, how string, idxs []int, step string) error {
 	return r.pendingDone()
 }
 
+// stepHitRun: while the manager is held (as if busy with another peer's batch) the node sends one headers message and
+// hangs up at once. The service-side peer reads the message (OnHeaders queues it for the manager) and then the end of the
+// stream (Connected() turns false) — both before the manager continues. Events: the peer object is disconnected (model:
+// `hangup`), the queued headers message is handled, then (pendingDone) the done message.
+func (r *rig) stepHitRun(i int, idxs []int) error {
+	n := r.nodes[i]
+	if len(idxs) == 0 || n.isClosed() || r.sm == nil || !r.serial() || i >= len(r.lpeers) || r.lpeers[i] == nil {
+		return nil
+	}
+	lp := r.lpeers[i]
+	if err := r.settle(); err != nil {
+		return err
+	}
+	var werr error
+	r.sm.VerifPaused(func() {
+		_ = n.sendHeaders(idxs)
+		n.close()
+		deadline := time.Now().Add(rigTimeout)
+		for lp.p.Connected() && time.Now().Before(deadline) {
+			time.Sleep(50 * time.Microsecond)
+		}
+		if lp.p.Connected() {
+			werr = fmt.Errorf("%w: the peer of node %d did not notice the hang-up", errRigTimeout, i)
+		}
+	})
+	if werr != nil {
+		return werr
+	}
+	r.events = append(r.events, evRec{Step: fmt.Sprintf("hitrun %d (hang-up)", i), ModelOp: fmt.Sprintf("sync hangup %d", i), Observed: ""})
+	if err := r.record(fmt.Sprintf("hitrun %d headers %s", i, compactInts(idxs)), fmt.Sprintf("sync headers CHOICE %d %s", i, idxList(idxs))); err != nil {
+		return err
+	}
+	return r.pendingDone()
+}
+
 func (r *rig) stepClose(i int) error {
 	r.nodes[i].close()
 	if err := r.record(fmt.Sprintf("close %d", i), ""); err != nil {
@@ -872,6 +907,8 @@ func (r *rig) run() error {
 			err = r.stepAnnounce(st.Node, st.How, st.N)
 		case "push":
 			err = r.stepPush(st.Node, st.How, st.Idx, fmt.Sprintf("push %d %s %s", st.Node, st.How, compactInts(st.Idx)))
+		case "hitrun":
+			err = r.stepHitRun(st.Node, st.Idx)
 		case "close":
 			err = r.stepClose(st.Node)
 		case "stall":
